@@ -173,3 +173,14 @@ CHECKS['C12'] = dict(
          'may fire early as explored deviations: no false timeout, own result kept, TIMEOUT + teardown + plug tearDown, bounded delay, '
          'nothing of the abandoned body attributed to other phases.',
     note='Async exceptions are delivered at scheduling points of the target (not between arbitrary bytecodes); line granularity.')
+
+CHECKS['C04'] = dict(
+    engine='sched', level='model_checking', design_ref='DESIGN.md#c04',
+    technique='stateless schedule exploration of abort vs executor vs phase threads under a controlled scheduler (external abort gates, SIGINT on the main thread)',
+    text='Real Test.execute() runs of 5 programs (3 plain phases, group with setup/main/teardown, REPEAT phase, subtest, test_start trigger) with '
+         'an aborter issuing 1-2 Test.abort_from_sig_int() calls at every offered moment (external gate: free alternative at the decision points '
+         'of the filter; all points in thorough) plus preemptions up to the bound inside the abort / phase-start / finalization code at line '
+         'granularity, and SIGINT delivered on the main thread while the test is registered.  Oracle on the event log: execute() returns, no '
+         'two live bodies, nothing new starts after abort()/kill request returned, teardown + plug tearDown after one abort, ABORTED when abort '
+         'returned before finalization, callbacks exactly once, second abort stops teardown, nothing after finalization.',
+    note='Harness-owned phase bodies; a body asked to die counts as abandoned (by design of the framework); bounds and gate filters are in the evidence.')
